@@ -51,6 +51,8 @@ pub struct Config {
     pub random_programs: usize,
     pub wall_cap: Duration,
     pub cross_every: usize,
+    /// Use only an evenly spaced subset of the directed family (sanitizer stages).
+    pub directed_limit: Option<usize>,
 }
 
 pub struct Outcome {
@@ -220,7 +222,14 @@ pub fn run_check(cfg: &Config) -> Outcome {
     let prop: &str = &cfg.prop;
     let thorough = cfg.tier == "thorough";
     let profile = profile_for(prop);
-    let directed = directed_for(prop, thorough);
+    let mut directed = directed_for(prop, thorough);
+    if let Some(n) = cfg.directed_limit {
+        if n < directed.len() {
+            let step = directed.len() as f64 / n.max(1) as f64;
+            let off = (cfg.seed as usize) % (step as usize).max(1);
+            directed = (0..n).map(|i| directed[((i as f64 * step) as usize + off).min(directed.len() - 1)].clone()).collect();
+        }
+    }
     let n_directed = directed.len();
     let n_random = cfg.random_programs;
     let total = n_directed + n_random;
